@@ -58,16 +58,22 @@ func (c *Ctx) resolverModel(rule string) *resolverModel {
 	}
 	// the reference resolver is the function that takes the referring *Resolved: the Loader call may sit in
 	// a helper it calls (climb through single-call-site helpers)
+	// (role: takes the referring *Resolved and the reference text, returns the target *Schema first)
 	hasResolved := func(fn *ssa.Function) bool {
+		hasRs, hasText := false, false
 		for _, p := range fn.Params {
 			if c.isPkgNamed(p.Type(), "Resolved") {
-				return true
+				hasRs = true
+			}
+			if tString(p.Type()) {
+				hasText = true
 			}
 		}
-		return false
+		res := fn.Signature.Results()
+		return hasRs && hasText && res.Len() >= 2 && isPointer(res.At(0).Type()) && c.isPkgNamed(res.At(0).Type(), "Schema")
 	}
 	cur := loaderFn
-	for hops := 0; hops < 3 && !hasResolved(cur) && cur.Parent() == nil && c.P.OnlyStaticCallers(cur); hops++ {
+	for hops := 0; hops < 4 && !hasResolved(cur) && cur.Parent() == nil && c.P.OnlyStaticCallers(cur); hops++ {
 		sites := c.P.CallIndex().Sites[cur]
 		if len(sites) != 1 {
 			break
@@ -131,12 +137,12 @@ func ruleC03Cache(c *Ctx) {
 				// the callee (or a function nested in it) calls the reference resolver directly;
 				// the call graph is not used here because iterator callbacks merge unrelated traversals
 				direct := callee == m.refFn
-				for _, f := range core.WithAnon(callee) {
-					core.EachInstr(f, func(j ssa.Instruction) {
-						if c2, ok := j.(ssa.CallInstruction); ok && c2.Common().StaticCallee() == m.refFn {
+				if callee != m.docFn {
+					for _, fj := range c.familyInstrs(callee) {
+						if c2, ok := fj.I.(ssa.CallInstruction); ok && c2.Common().StaticCallee() == m.refFn {
 							direct = true
 						}
-					})
+					}
 				}
 				if direct {
 					descents = append(descents, call)
@@ -209,7 +215,7 @@ func ruleC03LoaderOnMiss(c *Ctx) {
 		}
 		// key must be arg.String()
 		kc, ok := lk.Index.(*ssa.Call)
-		if !ok || core.CalleeKey(&kc.Call) != "net/url.URL.String" || kc.Call.Args[0] != arg {
+		if !ok || core.CalleeKey(&kc.Call) != "net/url.URL.String" || !(kc.Call.Args[0] == arg || sharesSourceDeep(kc.Call.Args[0], arg)) {
 			continue
 		}
 		_, steps := c.accessPath(lk.X)
@@ -261,64 +267,78 @@ func ruleForeignTablesMerged(c *Ctx, rule string) {
 		return
 	}
 	fn := m.refFn
+	fam := c.familyInstrs(fn)
+	// the current Resolved: the resolver's parameter, or a helper's parameter that receives it
+	isCurrent := func(v ssa.Value) bool {
+		for _, s := range traceSourcesDeep(v) {
+			if s == m.rsParam {
+				return true
+			}
+		}
+		return false
+	}
 	// loads of X.root where X is not the current Resolved
 	type foreign struct {
 		load *ssa.UnOp
 		from ssa.Value // the *Resolved value
 	}
 	var foreigns []foreign
-	core.EachInstr(fn, func(i ssa.Instruction) {
-		ld, ok := i.(*ssa.UnOp)
+	seenI := map[ssa.Instruction]bool{}
+	for _, fi := range fam {
+		if seenI[fi.I] {
+			continue
+		}
+		seenI[fi.I] = true
+		ld, ok := fi.I.(*ssa.UnOp)
 		if !ok || ld.Op != token.MUL {
-			return
+			continue
 		}
 		fa, ok := ld.X.(*ssa.FieldAddr)
 		if !ok || c.fieldName(fa.X.Type(), fa.Field) != "Resolved.root" {
-			return
+			continue
 		}
-		isCurrent := false
-		for _, s := range traceSources(fa.X) {
-			if s == m.rsParam {
-				isCurrent = true
-			}
-		}
-		if !isCurrent {
+		if !isCurrent(fa.X) {
 			foreigns = append(foreigns, foreign{ld, fa.X})
 		}
-	})
+	}
 	// lookups in the current side table
 	var lookups []*ssa.Lookup
-	core.EachInstr(fn, func(i ssa.Instruction) {
-		lk, ok := i.(*ssa.Lookup)
+	seenI = map[ssa.Instruction]bool{}
+	for _, fi := range fam {
+		if seenI[fi.I] {
+			continue
+		}
+		seenI[fi.I] = true
+		lk, ok := fi.I.(*ssa.Lookup)
 		if !ok || !c.isMapTo(lk.X.Type(), "resolvedInfo") {
-			return
+			continue
 		}
 		root, steps := c.accessPath(lk.X)
-		if root == m.rsParam && pathString(steps) == "Resolved.resolvedInfos" {
+		if isCurrent(root) && pathString(steps) == "Resolved.resolvedInfos" {
 			lookups = append(lookups, lk)
 		}
-	})
+	}
 	// merge loops: a range over F.resolvedInfos whose body updates the current side table
 	mergeBlocks := func(f ssa.Value) map[*ssa.BasicBlock]bool {
 		out := map[*ssa.BasicBlock]bool{}
-		core.EachInstr(fn, func(i ssa.Instruction) {
-			rg, ok := i.(*ssa.Range)
+		for _, fi := range fam {
+			rg, ok := fi.I.(*ssa.Range)
 			if !ok {
-				return
+				continue
 			}
 			root, steps := c.accessPath(rg.X)
 			if pathString(steps) != "Resolved.resolvedInfos" || !sharesSource(root, f) {
-				return
+				continue
 			}
 			// there must be an update of the current table fed by this range
 			updates := false
-			core.EachInstr(fn, func(j ssa.Instruction) {
+			core.EachInstr(rg.Parent(), func(j ssa.Instruction) {
 				mu, ok := j.(*ssa.MapUpdate)
 				if !ok {
 					return
 				}
 				r2, st2 := c.accessPath(mu.Map)
-				if r2 == m.rsParam && pathString(st2) == "Resolved.resolvedInfos" {
+				if isCurrent(r2) && pathString(st2) == "Resolved.resolvedInfos" {
 					if ext, ok := mu.Value.(*ssa.Extract); ok {
 						if nx, ok := ext.Tuple.(*ssa.Next); ok && nx.Iter == rg {
 							updates = true
@@ -329,7 +349,7 @@ func ruleForeignTablesMerged(c *Ctx, rule string) {
 			if updates {
 				out[rg.Block()] = true
 			}
-		})
+		}
 		return out
 	}
 	n := 0
@@ -340,9 +360,29 @@ func ruleForeignTablesMerged(c *Ctx, rule string) {
 			}
 			n++
 			through := mergeBlocks(f.from)
-			ok := len(through) > 0 && mustPass(f.load.Block(), through, map[*ssa.BasicBlock]bool{lk.Block(): true})
-			if through[lk.Block()] {
-				ok = true
+			ok := false
+			if f.load.Parent() == lk.Parent() {
+				ok = len(through) > 0 && mustPass(f.load.Block(), through, map[*ssa.BasicBlock]bool{lk.Block(): true})
+				if through[lk.Block()] {
+					ok = true
+				}
+			} else if len(through) > 0 {
+				// the foreign root is obtained in a helper and looked up by its caller: every path from the load
+				// to a return of the helper that hands the root on passes through the merge
+				targets := map[*ssa.BasicBlock]bool{}
+				for _, b := range f.load.Parent().Blocks {
+					if ret, isRet := b.Instrs[len(b.Instrs)-1].(*ssa.Return); isRet && len(ret.Results) > 0 {
+						for _, rv := range ret.Results {
+							if flowsTo(f.load, rv) {
+								targets[b] = true
+							}
+						}
+					}
+				}
+				ok = len(targets) > 0 && mustPass(f.load.Block(), through, targets)
+				if through[f.load.Block()] {
+					ok = true
+				}
 			}
 			construct := fmt.Sprintf("%s:root(%s)->lookup", core.FuncName(fn), shortValue(f.from))
 			c.R.Check(ok, rule, construct, c.pos(lk), "the other document's side tables are merged into the current one on every path before its root is looked up",
@@ -379,7 +419,7 @@ func flowsTo(from ssa.Value, to ssa.Value) bool {
 	if from == to {
 		return true
 	}
-	for _, s := range traceSources(to) {
+	for _, s := range traceSourcesDeep(to) {
 		if s == from {
 			return true
 		}
@@ -826,4 +866,20 @@ func ruleC03RefPerOccurrence(c *Ctx) {
 		})
 	}
 	c.R.Floor(rule, "stores of resolved reference targets", n, 2)
+}
+
+// sharesSourceDeep: the two values have a common origin, seen through transparent helpers.
+func sharesSourceDeep(a, b ssa.Value) bool {
+	if a == b {
+		return true
+	}
+	sa, sb := traceSourcesDeep(a), traceSourcesDeep(b)
+	for _, x := range sa {
+		for _, y := range sb {
+			if x == y {
+				return true
+			}
+		}
+	}
+	return false
 }
